@@ -588,11 +588,103 @@ pub fn cases(quick: bool) -> Vec<Case> {
     v
 }
 
+/// The rate of the length-scaled flip on genomes far too long for any tree: the first gene's coin is a
+/// threshold on its word (flip iff word < T), so T is located by bisection over the word - every later gene
+/// is handed the all-ones word and keeps its value - and T / 2^64 must be 1/length as exactly as a 24-bit
+/// draw allows.  (32 executions of 2^24 genes each instead of 2^24 executions.)
+fn length_scaled_threshold(run: &mut Run) -> u64 {
+    use ec_core::operator::mutator::Mutator;
+    use ec_linear::mutator::with_one_over_length::WithOneOverLength;
+    struct FirstThenOnes {
+        first: u64,
+        used: bool,
+    }
+    impl rand::RngCore for FirstThenOnes {
+        fn next_u32(&mut self) -> u32 {
+            if self.used {
+                u32::MAX
+            } else {
+                self.used = true;
+                (self.first >> 32) as u32
+            }
+        }
+        fn next_u64(&mut self) -> u64 {
+            if self.used {
+                u64::MAX
+            } else {
+                self.used = true;
+                self.first
+            }
+        }
+        fn fill_bytes(&mut self, dst: &mut [u8]) {
+            dst.fill(0xff);
+        }
+    }
+    let lens: Vec<usize> = if run.quick() { vec![1 << 24] } else { vec![(1 << 24) - 1, 1 << 24, (1 << 24) + 1, 3 << 23, 1 << 25, 10_000_000] };
+    let mut n = 0u64;
+    for l in lens {
+        for bits in [true, false] {
+            // does the first gene flip when its coin is decided by `word`?  None: the mutator failed or changed something else
+            let mut probe = |word: u64| -> Option<bool> {
+                n += 1;
+                let mut rng = FirstThenOnes { first: word, used: false };
+                let out: Vec<bool> = if bits {
+                    WithOneOverLength.mutate(Bitstring { bits: vec![false; l] }, &mut rng).ok()?.bits
+                } else {
+                    WithOneOverLength.mutate(vec![false; l], &mut rng).ok()?
+                };
+                (out.len() == l && out[1..].iter().all(|b| !*b)).then_some(out[0])
+            };
+            let label = format!("WithOneOverLength on a {} of {l} genes", if bits { "Bitstring" } else { "Vec<bool>" });
+            let what = match (mcx::guarded(|| (probe(0), probe(u64::MAX)))) {
+                Err(p) => Some(("panic", format!("panicked: {p}"))),
+                Ok((Some(true), Some(false))) => {
+                    // smallest word that does not flip
+                    let (mut lo, mut hi) = (0u64, u64::MAX);
+                    let mut broken = None;
+                    while hi - lo > 1 {
+                        let mid = lo + (hi - lo) / 2;
+                        match mcx::guarded(|| probe(mid)) {
+                            Ok(Some(true)) => lo = mid,
+                            Ok(Some(false)) => hi = mid,
+                            other => {
+                                broken = Some(format!("with the first word {mid:#x}: {other:?}"));
+                                break;
+                            }
+                        }
+                        // (the draw has 24 bits: the threshold is a multiple of 2^40; stop there)
+                        if hi - lo <= 1 << 36 {
+                            break;
+                        }
+                    }
+                    match broken {
+                        Some(b) => Some(("result", b)),
+                        None => {
+                            let p = hi as f64 / 18_446_744_073_709_551_616.0;
+                            let want = 1.0 / l as f64;
+                            ((p - want).abs() >= 1.0 / 16_777_216.0).then(|| ("rate", format!("the first gene flips for first words below {hi:#x}, i.e. with probability {p:e}; 1/length is {want:e} (a 24-bit draw can be off by less than 2^-24)")))
+                        }
+                    }
+                }
+                Ok(other) => Some(("result", format!("the first gene does not flip exactly for small first words: word 0 and the all-ones word give {other:?} (Some(flipped), None = something else changed)"))),
+            };
+            if let Some((k, w)) = what {
+                run.violation(format!("with_one_over_length/huge/{k}"), format!("{label}: {w}"), json!({"check":"C12","scenario":"length-scaled-threshold"}));
+            }
+        }
+    }
+    run.bound("length_scaled_threshold_lengths", json!(if run.quick() { "2^24" } else { "2^24-1, 2^24, 2^24+1, 3*2^23, 2^25, 10^7" }));
+    n
+}
+
 pub fn run(run: &mut Run) {
     if let Err(e) = mcx::rng::calibrate() {
         run.machinery(format!("calibration failed: {e}"));
         return;
     }
+    let t = length_scaled_threshold(run);
+    run.evaluations += t;
+    run.transitions += t;
     let cs = cases(run.quick());
     let results = mcx::par_map(cs.len(), |i| run_case(&cs[i]));
     let mut nontrivial = 0;
@@ -623,6 +715,18 @@ pub fn run(run: &mut Run) {
 }
 
 pub fn replay(v: &Value) -> bool {
+    if v["scenario"] == json!("length-scaled-threshold") {
+        let mut r = Run::new("C12", "quick");
+        length_scaled_threshold(&mut r);
+        let g = r.violations.lock().unwrap();
+        for (k, x) in g.iter() {
+            println!("MISMATCH [{k}]: {}", x.what);
+        }
+        if g.is_empty() {
+            println!("replay: property held");
+        }
+        return g.is_empty();
+    }
     let cs = cases(v["quick"].as_bool().unwrap_or(false));
     let i = v["index"].as_u64().unwrap_or(0) as usize;
     let Some(c) = cs.get(i) else { return false };
